@@ -179,7 +179,45 @@ def gen_c10(ctx):
     return out
 
 
-GEN = dict(C01=lambda ctx: gen_c04(ctx)[::2] + gen_c07(ctx)[::3], C04=gen_c04, C05=gen_c05, C06=gen_c06, C07=gen_c07, C08=gen_c08,
+def gen_stale(ctx):
+    """a fragment left by an earlier transmission whose missing-byte count equals the length of a later complete frame"""
+    out = []
+    for framing, kind, k, c1, c2 in (('udp', 'udp', 6, 4, 1), ('tcp', 'tcp', 10, 6, 1), ('aa55', 'udp', 10, 6, 1), ('udp', 'udp', 6, 10, 7), ('tcp', 'tcp', 10, 20, 15)):
+        for ka in (False, True):
+            for r in (0, 1, 2):
+                for tail in ('', 'N'):
+                    letters = [dict(frag=k, second='none')] + ['D'] * r if not tail else [dict(frag=k, second='none'), 'N']
+                    if tail and r == 0: continue
+                    sc = base(kind, ka, r, letters, default='N', phases=[[req(0, 0, reg=100, count=c1), req(1, 20000, reg=300, count=c2)]])
+                    if framing == 'aa55': sc['framing'] = 'aa55'
+                    out.append(sc)
+    return out
+
+
+def gen_c02(ctx):
+    out = gen_stale(ctx)
+    for (k, ka, r) in configs(ctx.deep):
+        for ls in ('N', 'DN', 'GN', 'HN', 'SN', 'UN', 'XN', 'AN', 'LN', 'BN', 'dN'):
+            if len(ls) - 1 > r: continue
+            out.append(base(k, ka, r, ls, default='N', phases=[seq_reqs(3)]))
+    for sc in out:
+        if sc['kind'] == 'udp' and 'framing' not in sc and ctx.rng.random() < 0.3: sc['framing'] = 'aa55'
+    return out
+
+
+def gen_c03(ctx):
+    out = []
+    for ka in (False, True):
+        for r in (1, 2, 3):
+            for ls in ('D' * r + 'N', 'N', 'DN', 'GN', 'C' + 'N', 'DDD', 'AN'):
+                out.append(base('tcp', ka, r, ls, default='N', phases=[seq_reqs(3)]))
+                out.append(base('udp', ka, r, ls, default='N', phases=[seq_reqs(2)]))
+    for sc in out[1::4]:
+        if sc['kind'] == 'udp': sc['framing'] = 'aa55'
+    return out
+
+
+GEN = dict(C02=gen_c02, C03=gen_c03, C01=lambda ctx: gen_c04(ctx)[::2] + gen_c07(ctx)[::3], C04=gen_c04, C05=gen_c05, C06=gen_c06, C07=lambda ctx: gen_c07(ctx) + gen_stale(ctx), C08=gen_c08,
            C09=gen_c09, C10=gen_c10)
 
 
